@@ -8,6 +8,7 @@ from .. import shapes as S
 from .. import util_knots as K
 
 PROPERTY = "C07"
+VIA_HISTORY_EVERY = 5      # every k-th shape case is also run on an object that reached its definition through edits
 EXPLORERS = ['E1']
 RULE = ("E1: the clamped curves and surfaces of C04 plus the full K'(p) surface products (rational and not, pairwise different sizes) and non-normalised affine "
         "knot ranges (normalize_kv=False) x split parameter in {every interior knot (multiplicities 1..p), every span midpoint, "
@@ -79,6 +80,11 @@ def gen_cases(tier, seed):
     for d in base:
         cases.append(dict(kind='split', shape=d))
         cases.append(dict(kind='decompose', shape=d))
+    # shapes that keep their own knot range, reached through edits from another range (the old domain end is an interior
+    # knot of the new domain): the domain used by the end-of-domain rejection must be the current one
+    for d in K.nonnormalised_shapes(tier):
+        cases.append(dict(kind='split', shape=d, via='history'))
+        cases.append(dict(kind='decompose', shape=d, via='history'))
     return cases
 
 
